@@ -83,14 +83,7 @@ func (s *Sys) open() {
 		for _, suf := range []string{"", "-wal", "-shm"} {
 			os.Remove(s.path + suf)
 		}
-		st, err := queue.NewSQLiteStore(s.path,
-			queue.WithSQLiteNowFunc(s.now),
-			queue.WithSQLiteQueueLimits(c.MaxDepth, policy(c)),
-			queue.WithSQLiteRetention(c.RetentionMaxAge, c.PruneInterval),
-			queue.WithSQLiteDeliveredRetention(c.DeliveredMaxAge),
-			queue.WithSQLiteDLQRetention(c.DLQMaxAge, c.DLQMaxDepth),
-			queue.WithSQLiteCheckpointInterval(0),
-		)
+		st, err := queue.NewSQLiteStore(s.path, s.sqliteOpts()...)
 		if err != nil {
 			panic(fmt.Sprintf("qsys: open sqlite: %v", err))
 		}
@@ -108,6 +101,37 @@ func (s *Sys) open() {
 	default:
 		panic("qsys: unknown backend " + s.Backend)
 	}
+}
+
+func (s *Sys) sqliteOpts() []queue.SQLiteOption {
+	c := s.Cfg
+	return []queue.SQLiteOption{
+		queue.WithSQLiteNowFunc(s.now),
+		queue.WithSQLiteQueueLimits(c.MaxDepth, policy(c)),
+		queue.WithSQLiteRetention(c.RetentionMaxAge, c.PruneInterval),
+		queue.WithSQLiteDeliveredRetention(c.DeliveredMaxAge),
+		queue.WithSQLiteDLQRetention(c.DLQMaxAge, c.DLQMaxDepth),
+		queue.WithSQLiteCheckpointInterval(0),
+	}
+}
+
+// reopen models a restart of the process on the same database file: the store is closed and opened again with the
+// same options; the driver keeps its lease-handle table (the workers outside the process keep their lease ids).
+func (s *Sys) reopen() *qmodel.Obs {
+	if s.Backend != "sqlite" {
+		return &qmodel.Obs{Err: qmodel.OK}
+	}
+	if c, ok := s.Store.(interface{ Close() error }); ok {
+		c.Close()
+	}
+	st, err := queue.NewSQLiteStore(s.path, s.sqliteOpts()...)
+	if err != nil {
+		return &qmodel.Obs{Err: qmodel.Other, ErrText: "reopen: " + err.Error()}
+	}
+	s.Store = st
+	s.Drv.Store = st
+	s.Reopens++
+	return &qmodel.Obs{Err: qmodel.OK}
 }
 
 // Reset returns the instance to "freshly opened, empty, clock T0".
@@ -158,11 +182,16 @@ func (s *Sys) ForceReopen() {
 
 func (s *Sys) Replay(hist []qmodel.Op) {
 	for _, op := range hist {
-		s.Drv.Do(op)
+		s.Do(op)
 	}
 }
 
-func (s *Sys) Do(op qmodel.Op) *qmodel.Obs { return s.Drv.Do(op) }
+func (s *Sys) Do(op qmodel.Op) *qmodel.Obs {
+	if op.Kind == "reopen" {
+		return s.reopen()
+	}
+	return s.Drv.Do(op)
+}
 
 func (s *Sys) Listing() []qmodel.Msg {
 	l, err := s.Drv.Listing()
